@@ -96,6 +96,7 @@ let with_tree toks f =
 
 let handle = function
   | "chan" :: pf :: toks -> with_tree toks (fun fo v -> channels "n" (as_json_chunks fo (z_of_string pf) v))
+  | "tchan" :: pf :: toks -> with_tree toks (fun fo v -> channels "t" (as_json_chunks fo (z_of_string pf) v))
   | "jchan" :: pf :: toks -> with_tree toks (fun fo v -> channels "b" (jbl_as_json_chunks fo (z_of_string pf) v))
   | "chunks" :: pf :: toks -> with_tree toks (fun fo v ->
       match as_json_chunks fo (z_of_string pf) v with
